@@ -227,7 +227,7 @@ def dFold : DRead → List Bytes → DRead
 
 /-- `bufr_tabled_read` on the bytes of an existing file -/
 def readTableD (file : Bytes) : List EntryD :=
-  (dFold { buf := List.replicate 16 0 } (fgetsChunks 4095 file)).out.reverse
+  (dFold { buf := List.replicate 16 0 } (fgetsChunks 8191 file)).out.reverse
 
 /-! ### CSV (`str_nstrtok`, `bufr_csv_split_cells`, the two CSV readers)
 
